@@ -202,7 +202,7 @@ class CSVWriter(rbql_engine.RBQLOutputWriter):
     def set_header(self, header):
         if header is not None:
             self.header_len = len(header)
-            self.write(header)
+            self.write(header[:]) # write() normalizes and quotes the fields in place: do not touch the caller's list
 
 
     def monocolumn_join(self, fields):
